@@ -102,6 +102,7 @@ type Gen struct {
 	extraTrusted map[string]bool
 	UsedSpecs map[string]bool
 	frozen   bool
+	shapeErrors []string
 	errClasses []string
 	prelude  []string // assertions that hold globally (placed before all commands)
 }
